@@ -378,3 +378,112 @@ Proof.
     rewrite (f2r_ltb _ _ Fs F0), E0, Es.
     destruct (Rltb (rnd64 (f2r d - f2r h)) 0); [exact E0 | exact Es].
 Qed.
+
+(* ---------- query_density (both KNN predicts): mean over k, divisor (max - min) + EPSILON ---------- *)
+Lemma fits64_le_bpow t (ex : Z) : (-1074 <= ex <= 1023)%Z -> Rabs t <= bpow radix2 ex -> fits64 t /\ Rabs (rnd64 t) <= bpow radix2 ex.
+Proof.
+  intros He H.
+  assert (B : Rabs (rnd64 t) <= bpow radix2 ex).
+  { unfold rnd64. apply abs_round_le_generic; auto with typeclass_instances.
+    apply generic_format_bpow. unfold FLT_exp. lia. }
+  split; [|exact B]. unfold fits64. apply Rle_lt_trans with (1 := B). apply bpow_lt. lia.
+Qed.
+
+Lemma mean_refines (k : nat) (d : Z) (e : nat -> pfloat) :
+  (1 <= d)%Z -> (Z.of_nat k <= d)%Z -> (d <= 2 ^ 53)%Z ->
+  (forall l, (l < k)%nat -> unit_term (e l)) ->
+  frel (fsum FOps (map e (seq 0 k)) / float_ofZ d)%float
+       (rnd64 (PdfRndBase.rsum rnd64 (map (fun l => f2r (e l)) (seq 0 k)) / IZR d)) /\
+  0 <= rnd64 (PdfRndBase.rsum rnd64 (map (fun l => f2r (e l)) (seq 0 k)) / IZR d) <= 1.
+Proof.
+  intros Hd1 Hkd Hd He. unfold PdfRndBase.rsum, fsum. cbn [nadd nofZ FOps].
+  destruct (fsum_refines (map e (seq 0 k)) (Forall_map_seq unit_term e k He) (float_ofZ 0) 0 0
+              (frel_ofZ 0 ltac:(lia)) ltac:(lia) ltac:(lra)
+              ltac:(rewrite map_length, seq_length; lia)) as [R1 R2].
+  rewrite map_map in R1, R2. rewrite map_length, seq_length, Z.add_0_l in R2.
+  set (s := fold_left (fun s t => rnd64 (s + t)) (map (fun l => f2r (e l)) (seq 0 k)) 0) in *.
+  assert (Hdp : 0 < IZR d) by (apply IZR_lt; lia).
+  assert (Hq : 0 <= s / IZR d <= 1).
+  { assert (Hle : s <= IZR d) by (apply Rle_trans with (1 := proj2 R2); apply IZR_le; lia).
+    split; [apply Rmult_le_pos; [lra | apply Rlt_le, Rinv_0_lt_compat; exact Hdp]|].
+    apply Rmult_le_reg_r with (IZR d); [exact Hdp|].
+    unfold Rdiv. rewrite Rmult_assoc, Rinv_l by lra. lra. }
+  split.
+  - apply frel_div; [exact R1 | apply frel_ofZ; lia | lra |].
+    apply fits64_small. rewrite Rabs_pos_eq; lra.
+  - split; [apply rnd64_nonneg; lra | rewrite <- rnd64_one; apply rnd64_mono; lra].
+Qed.
+
+Lemma rnd64_abs_le_int t z : (0 <= z <= 2 ^ 53)%Z -> Rabs t <= IZR z -> Rabs (rnd64 t) <= IZR z.
+Proof.
+  intros Hz H. apply Rabs_le_inv in H. apply Rabs_le. split.
+  - rewrite <- opp_IZR, <- (rnd64_int (- z)) by lia. apply rnd64_mono. rewrite opp_IZR. lra.
+  - apply rnd64_le_int; [lia | lra].
+Qed.
+
+Theorem query_density_refines (eps mn mx : pfloat) (k : nat) (e : nat -> pfloat) :
+  (1 <= k)%nat -> (Z.of_nat k <= 2 ^ 53)%Z ->
+  (forall l, (l < k)%nat -> ffin (e l) = true /\ 0 <= f2r (e l) <= 1) ->
+  ffin mn = true -> ffin mx = true -> ffin eps = true ->
+  0 <= f2r mn -> f2r mn <= f2r mx -> f2r mx <= 1 ->
+  / 2 ^ 1000 <= f2r eps <= 1 ->
+  frel (query_density FOps 1000 eps mn mx k e)
+       (query_density (RndOps rnd64) 1000 (f2r eps) (f2r mn) (f2r mx) k (fun l => f2r (e l))).
+Proof.
+  intros Hk1 Hk He Fmn Fmx Feps H0 Hmm H1 Heps.
+  rewrite query_density_RndOps. unfold qmap, amap, qmean.
+  unfold query_density. cbn [nadd nsub nmul ndiv nofZ FOps]. change (1000 - 1)%Z with 999%Z.
+  destruct (mean_refines k (Z.of_nat k) e ltac:(lia) ltac:(lia) Hk He) as [Rs Bs].
+  set (s := rnd64 (PdfRndBase.rsum rnd64 (map (fun l => f2r (e l)) (seq 0 k)) / IZR (Z.of_nat k))) in *.
+  set (a := f2r mn) in *. set (b := f2r mx) in *. set (ep := f2r eps) in *.
+  rewrite <- bpow2_neg_nat in Heps. change (- Z.of_nat 1000)%Z with (-1000)%Z in Heps.
+  assert (Pe : 0 < bpow radix2 (-1000)) by apply bpow_gt_0.
+  (* s - mn *)
+  assert (R1 : frel (fsum FOps (map e (seq 0 k)) / float_ofZ (Z.of_nat k) - mn)%float (rnd64 (s - a))).
+  { apply frel_sub; [exact Rs | apply frel_self; exact Fmn |]. apply fits64_small. apply Rabs_le. lra. }
+  assert (HA : Rabs (rnd64 (s - a)) <= 1).
+  { apply (rnd64_abs_le_int _ 1); [lia|]. apply Rabs_le. lra. }
+  set (A := rnd64 (s - a)) in *.
+  (* 999 * . *)
+  assert (HA999 : Rabs (999 * A) <= 999).
+  { rewrite Rabs_mult, (Rabs_pos_eq 999) by lra. pose proof (Rabs_pos A). nra. }
+  assert (R2 : frel (float_ofZ 999 * (fsum FOps (map e (seq 0 k)) / float_ofZ (Z.of_nat k) - mn))%float
+                    (rnd64 (999 * A))).
+  { apply frel_mul; [apply frel_ofZ; lia | exact R1 |]. apply fits64_small. lra. }
+  assert (HB : Rabs (rnd64 (999 * A)) <= 999) by (apply (rnd64_abs_le_int _ 999); [lia | exact HA999]).
+  set (B := rnd64 (999 * A)) in *.
+  (* mx - mn, + eps *)
+  assert (R3 : frel (mx - mn)%float (rnd64 (b - a))).
+  { apply frel_sub; [apply frel_self; exact Fmx | apply frel_self; exact Fmn |].
+    apply fits64_small. rewrite Rabs_pos_eq; lra. }
+  assert (HD : 0 <= rnd64 (b - a) <= 1).
+  { split; [apply rnd64_nonneg; lra | rewrite <- rnd64_one; apply rnd64_mono; lra]. }
+  set (D := rnd64 (b - a)) in *.
+  assert (R4 : frel (mx - mn + eps)%float (rnd64 (D + ep))).
+  { apply frel_add; [exact R3 | apply frel_self; exact Feps |]. apply fits64_small. rewrite Rabs_pos_eq; lra. }
+  assert (HE : ep <= rnd64 (D + ep) <= 2).
+  { split; [|apply (rnd64_le_int _ 2); [lia | lra]].
+    replace ep with (rnd64 ep) at 1 by apply f2r_format. apply rnd64_mono. lra. }
+  set (E := rnd64 (D + ep)) in *.
+  assert (PE : 0 < E) by lra.
+  (* the quotient *)
+  assert (HQ : Rabs (B / E) <= bpow radix2 1010).
+  { unfold Rdiv. rewrite Rabs_mult, (Rabs_pos_eq (/ E)) by (apply Rlt_le, Rinv_0_lt_compat; exact PE).
+    assert (I1 : / E <= bpow radix2 1000).
+    { change 1000%Z with (- (-1000))%Z. rewrite bpow_opp. apply Rinv_le_contravar; lra. }
+    assert (I0 : 0 < / E) by (apply Rinv_0_lt_compat; exact PE).
+    replace (bpow radix2 1010) with (bpow radix2 10 * bpow radix2 1000) by (rewrite <- bpow_plus; reflexivity).
+    change (bpow radix2 10) with 1024. pose proof (Rabs_pos B). nra. }
+  destruct (fits64_le_bpow (B / E) 1010 ltac:(lia) HQ) as [FQ BQ].
+  assert (R5 : frel (float_ofZ 999 * (fsum FOps (map e (seq 0 k)) / float_ofZ (Z.of_nat k) - mn)
+                     / (mx - mn + eps))%float (rnd64 (B / E))).
+  { apply frel_div; [exact R2 | exact R4 | lra | exact FQ]. }
+  set (Q := rnd64 (B / E)) in *.
+  (* + 1 *)
+  apply frel_add; [exact R5 | apply frel_ofZ; lia |].
+  apply (fits64_le_bpow (Q + 1) 1011 ltac:(lia)).
+  replace (bpow radix2 1011) with (bpow radix2 1010 + bpow radix2 1010)
+    by (change 1011%Z with (1010 + 1)%Z; rewrite bpow_plus; change (bpow radix2 1) with 2; ring).
+  assert (1 <= bpow radix2 1010) by (change 1 with (bpow radix2 0); apply bpow_le; lia).
+  apply Rle_trans with (1 := Rabs_triang Q 1). rewrite (Rabs_pos_eq 1) by lra. lra.
+Qed.
